@@ -157,27 +157,30 @@ S2SEffect(p, stage, clean) ==
                  THEN Append(tokens, NewToken("s2s", p.client, p.dpop, p.def, p.n, clean))
                  ELSE tokens
 
-S2SToken(d, n, fmt, fut, def, dpop, client) ==
+\* S2SDo: the request is answered as in `stage` (S2SToken: the stage the pipeline computes; the trace specification also
+\* uses it to reconstruct what a real node did).  clean: no defect flag and the pipeline would issue.
+S2SDo(d, n, fmt, fut, def, dpop, client, stage) ==
     /\ "s2s" \in Flows /\ steps < MaxSteps
     /\ LET p == [cls |-> Class(d), n |-> n, c |-> now + fut, fmt |-> fmt, def |-> def, dpop |-> dpop, client |-> client, acc |-> FALSE]
-           stage == S2SStage(p.cls, n, p.c, fmt)
-       IN /\ S2SEffect(p, stage, d = {})
+       IN /\ S2SEffect(p, stage, d = {} /\ S2SStage(p.cls, n, p.c, fmt) = "issue")
           /\ lastp' = [p EXCEPT !.acc = (stage = "issue")] /\ npres' = npres + 1
           /\ Log([a |-> "S2SToken", p |-> PresId(npres + 1), d |-> d, n |-> n, fmt |-> fmt, fut |-> fut, def |-> def,
                   dpop |-> dpop, client |-> client, res |-> ErrCode(stage), stage |-> stage,
                   tok |-> IF stage = "issue" THEN TokId(Len(tokens) + 1) ELSE None])
     /\ UNCHANGED <<now, age, sess, intro>>
+S2SToken(d, n, fmt, fut, def, dpop, client) ==
+    S2SDo(d, n, fmt, fut, def, dpop, client, S2SStage(Class(d), n, now + fut, fmt))
 
 \* the identical bytes once more (an eavesdropper, or the client itself): a defect once the presentation was accepted
-S2SReplay ==
+S2SReplayDo(stage) ==
     /\ "s2s" \in Flows /\ steps < MaxSteps /\ lastp.cls # None
     /\ LET p == lastp
-           stage == S2SStage(p.cls, p.n, p.c, p.fmt)
-       IN /\ S2SEffect(p, stage, p.cls = "ok" /\ ~p.acc)
+       IN /\ S2SEffect(p, stage, p.cls = "ok" /\ ~p.acc /\ S2SStage(p.cls, p.n, p.c, p.fmt) = "issue")
           /\ lastp' = [p EXCEPT !.acc = @ \/ stage = "issue"]
           /\ Log([a |-> "S2SReplay", p |-> PresId(npres), n |-> p.n, res |-> ErrCode(stage), stage |-> stage,
                   tok |-> IF stage = "issue" THEN TokId(Len(tokens) + 1) ELSE None])
     /\ UNCHANGED <<now, age, npres, sess, intro>>
+S2SReplay == lastp.cls # None /\ S2SReplayDo(S2SStage(lastp.cls, lastp.n, lastp.c, lastp.fmt))
 
 (***************************************************************************)
 (* authorization_code with OpenID4VP                                       *)
@@ -202,15 +205,15 @@ RespStage(d, st) ==
     ELSE "code"
 RespBurns(stage) == stage \in {"signer", "audience", "verify", "submission", "code"}
 
-AuthzResponse(i, d, fmt) ==
+AuthzDo(i, d, fmt, stage) ==
     /\ "code" \in Flows /\ steps < MaxSteps /\ i \in 1..Len(sess)
-    /\ LET stage == RespStage(d, sess[i].st)
-       IN /\ sess' = [sess EXCEPT ![i].st = IF stage = "code" THEN "coded"
-                                            ELSE IF RespBurns(stage) /\ @ = "open" THEN "dead" ELSE @,
-                                  ![i].clean = IF stage = "code" THEN d = {} ELSE @]
-          /\ Log([a |-> "AuthzResponse", s |-> SessId(i), d |-> d, fmt |-> fmt,
-                  res |-> IF stage = "code" THEN "code" ELSE "invalid_request", stage |-> stage])
+    /\ sess' = [sess EXCEPT ![i].st = IF stage = "code" THEN "coded"
+                                      ELSE IF RespBurns(stage) /\ @ = "open" THEN "dead" ELSE @,
+                            ![i].clean = IF stage = "code" THEN d = {} /\ RespStage(d, sess[i].st) = "code" ELSE @]
+    /\ Log([a |-> "AuthzResponse", s |-> SessId(i), d |-> d, fmt |-> fmt,
+            res |-> IF stage = "code" THEN "code" ELSE "invalid_request", stage |-> stage])
     /\ UNCHANGED <<now, age, burnt, lastp, npres, tokens, intro>>
+AuthzResponse(i, d, fmt) == i \in 1..Len(sess) /\ AuthzDo(i, d, fmt, RespStage(d, sess[i].st))
 
 \* order as implemented: code present -> (code burnt from here on) -> lookup -> client_id -> PKCE -> DPoP -> store
 TokStage(d, st) ==
@@ -226,17 +229,18 @@ TokErr(stage) == CASE stage \in {"grant", "pkce"} -> "invalid_grant"
                    [] stage = "issue" -> "issued"
                    [] OTHER -> "invalid_request"
 
-CodeToken(i, d, dpop) ==
+CodeDo(i, d, dpop, stage) ==
     /\ "code" \in Flows /\ steps < MaxSteps /\ i \in 1..Len(sess)
-    /\ LET stage == TokStage(d, sess[i].st)
-           burns == stage \in {"client", "pkce", "dpop", "issue"}
+    /\ LET burns == stage \in {"client", "pkce", "dpop", "issue"}
        IN /\ sess' = [sess EXCEPT ![i].st = IF burns THEN "used" ELSE @]
           /\ tokens' = IF stage = "issue"
-                       THEN Append(tokens, NewToken("code", sess[i].client, dpop, sess[i].def, SessId(i), sess[i].clean /\ d = {}))
+                       THEN Append(tokens, NewToken("code", sess[i].client, dpop, sess[i].def, SessId(i),
+                                                    sess[i].clean /\ d = {} /\ TokStage(d, sess[i].st) = "issue"))
                        ELSE tokens
           /\ Log([a |-> "CodeToken", s |-> SessId(i), d |-> d, dpop |-> dpop, res |-> TokErr(stage), stage |-> stage,
                   tok |-> IF stage = "issue" THEN TokId(Len(tokens) + 1) ELSE None])
     /\ UNCHANGED <<now, age, burnt, lastp, npres, intro>>
+CodeToken(i, d, dpop) == i \in 1..Len(sess) /\ CodeDo(i, d, dpop, TokStage(d, sess[i].st))
 
 (***************************************************************************)
 (* Introspection.  t = 0 stands for a token this node never issued.        *)
@@ -263,13 +267,13 @@ Answer(t, ext) ==
                claims |-> cl \ Members,
                nclaims |-> IF ext /\ ~ExtClaims THEN "dropped" ELSE "all"]
 
-Introspect(t, ext) ==
+IntrospectDo(t, ext, ans) ==
     /\ steps < MaxSteps /\ t \in 0..Len(tokens)
-    /\ LET ans == Answer(t, ext) IN
-       /\ intro' = ans
+    /\ /\ intro' = ans
        /\ Log([a |-> "Introspect", t |-> IF t = 0 THEN "bogus" ELSE TokId(t), ext |-> ext, res |-> ans.kind,
                over |-> IF ans.kind = "active" THEN {m \in Members : ans.m[m] = "cred"} ELSE {}])
     /\ UNCHANGED <<now, age, burnt, lastp, npres, tokens, sess>>
+Introspect(t, ext) == IntrospectDo(t, ext, Answer(t, ext))
 
 Tick == /\ now < MaxNow /\ steps < MaxSteps /\ now' = now + 1 /\ Log([a |-> "Tick"])
         /\ UNCHANGED <<age, burnt, lastp, npres, tokens, sess, intro>>
@@ -306,24 +310,23 @@ CodeSingleUse ==
     \A i, j \in 1..Len(tokens) : (i # j /\ tokens[i].flow = "code" /\ tokens[j].flow = "code") => tokens[i].n # tokens[j].n
 
 \* the code's design decision: a request that got as far as the nonce check has used up its nonce,
-\* also when DPoP or signature verification fails afterwards   (action property on S2SToken steps)
+\* also when DPoP or signature verification fails afterwards (`last` is the action that led to this state)
 NonceBurntEvenOnLaterFailure ==
-    [][\A n \in Nonces :
-         (last'.a = "S2SToken" /\ last' # last /\ last'.n = n /\ last'.stage \in {"replay", "dpop", "verify", "issue"})
-            => burnt'[n] = now]_vars
+    (last.a \in {"S2SToken", "S2SReplay"} /\ last.stage \in {"replay", "dpop", "verify", "issue"}) => burnt[last.n] = now
 
-\* introspection is a function of the issuance record and the token clock only
-IntrospectFaithful ==
-    intro.kind # None =>
-        LET t == intro.t
-            live == t \in 1..Len(tokens) /\ intro.at < tokens[t].exp   \* at the time of the answer
-        IN /\ (intro.kind = "active" => live)
-           /\ (live /\ intro.kind # "error" => intro.kind = "active")
-           /\ (intro.kind = "active" =>
-                  \A m \in {"iss", "client_id", "scope", "cnf", "iat", "exp"} \cap Members :
-                       intro.m[m] \in {Std(tokens[t], m), "cred"})
-           \* the claims of the answer are the claims established at issuance (none taken away, none added)
-           /\ (intro.kind = "active" => intro.nclaims = "all" /\ intro.claims \subseteq ClaimNames(tokens[t].def))
+\* introspection is a function of the issuance record and the token clock only.
+\* Sound: "active" only for a token this node issued and that has not expired, with the values established at issuance
+IntrospectSound ==
+    intro.kind = "active" =>
+        LET t == intro.t IN
+        /\ t \in 1..Len(tokens) /\ intro.at < tokens[t].exp
+        /\ \A m \in {"iss", "client_id", "scope", "cnf", "iat", "exp"} \cap Members : intro.m[m] \in {Std(tokens[t], m), "cred"}
+        \* the claims of the answer are the claims established at issuance (none taken away, none added)
+        /\ intro.nclaims = "all" /\ intro.claims \subseteq ClaimNames(tokens[t].def)
+\* Complete: a live token is reported active (not demanded by C02; the design satisfies it)
+IntrospectComplete ==
+    (intro.kind \notin {None, "error"} /\ intro.t \in 1..Len(tokens) /\ intro.at < tokens[intro.t].exp) => intro.kind = "active"
+IntrospectFaithful == IntrospectSound /\ IntrospectComplete
 
 \* no credential-derived claim takes the place of ANY top-level member of the answer
 ReservedClaimsNotOverridable ==
